@@ -86,6 +86,19 @@ CHECKS: dict[str, dict] = {
         technique="TLA+ model checked by TLC + spec->code replay through a stub lexer + TLC trace acceptance of real lexer runs",
         ref="5-C16",
     ),
+    "C01": dict(
+        engine="spec/Program.tla (+ vf/render.py)",
+        text="Program.tla is the canonical-fragment grammar as a state machine (one action per construct: function header in five variants, class, control, "
+             "else, anonymous function, close, statements incl. string literals with delimiters, multi-line initialiser, blank, comment) with the expected first "
+             "line, last line and own length of every function per layout family as ghost state, and sanity invariants checked by TLC in every state. Every "
+             "complete program of four bounded configurations (breadth, nesting depth up to 4/5, mixed, body lengths across 15/30/60) is rendered in each of "
+             "the 7 languages (where the construct exists) and analysed by the real scan_file; name, start line/column, end line/column, length, order and "
+             "absence of extras are compared with the specification.",
+        note="Canonical fragment = the grammar of Program.tla as rendered by vf/render.py; expected lines from the specification, the two columns from the "
+             "renderer's construction knowledge (rendered line numbers asserted equal to the specification's). " + BASE_NOTE,
+        technique="TLC-enumerated derivations with ghost oracle, every terminal state replayed into the real analysis",
+        ref="5-C01",
+    ),
 }
 
 NOT_YET = "check not built yet in this round (see DESIGN.md section 10 for the order of work)"
